@@ -11,7 +11,7 @@
       SimTKmath/Integrators/src/SemiExplicitEuler2Integrator.cpp attemptDAEStep     -> [sxe2_step]
       SimTKmath/Integrators/src/VerletIntegrator.cpp             attemptDAEStep     -> [verlet_step]
       SimTKmath/Integrators/src/IntegratorRep.h                  interpolateOrder3  -> [hermite]
-                                                                 calcRelativeScaling, calcErrorNorm (RMS) -> [rel_scale], [err_norm]
+                                                                 calcRelativeScaling, calcErrorNorm (RMS / infinity norm) -> [rel_scale], [err_norm], [err_norm_inf]
       SimTKmath/Integrators/src/AbstractIntegratorRep.cpp        adjustStepSize     -> [adjust]
                                                                  takeOneStep (retry loop, no events) -> [take_step]
     for systems without constraints and without prescribed motion (projection and prescribe calls do nothing).
@@ -271,6 +271,24 @@ Definition wrms (ws es:list T) : T :=
 Definition err_norm (wq:list T) (su sz:list T) (eq eu ez:list T) : T :=
   let qn := wrms wq eq in let un := wrms su eu in let zn := wrms sz ez in
   if nleb O un qn then (if nleb O zn qn then qn else zn) else (if nleb O zn un then un else zn).
+
+(** The infinity-norm branch of calcErrorNorm (userUseInfinityNorm == 1): Vector::weightedNormInf is
+      maxabs = 0; for i: wv = |w[i]*v[i]|; if (wv > maxabs) maxabs = wv
+    (0 for an empty vector); the q part is normInf of N*Wu*pinv(N)*dq, which for the diagonal N of the test systems is
+    the same loop with the u weights.  The three partial norms are combined exactly as in the RMS branch. *)
+Fixpoint winf_go (m:T) (ws es:list T) : T :=
+  match ws, es with
+  | w::ws', e::es' => let wv := nabs O (w * e) in winf_go (if nltb O m wv then wv else m) ws' es'
+  | _, _ => m
+  end.
+Definition winf (ws es:list T) : T := winf_go (n0 O) ws es.
+Definition pick3 (qn un zn:T) : T :=
+  if nleb O un qn then (if nleb O zn qn then qn else zn) else (if nleb O zn un then un else zn).
+Definition err_norm_inf (wq:list T) (su sz:list T) (eq eu ez:list T) : T :=
+  pick3 (winf wq eq) (winf su eu) (winf sz ez).
+(** calcErrorNorm for either setting of Integrator::setUseInfinityNorm *)
+Definition err_norm_sel (useInf:bool) (wq su sz eq eu ez:list T) : T :=
+  if useInf then err_norm_inf wq su sz eq eu ez else err_norm wq su sz eq eu ez.
 
 (** t1 selection of takeOneStep (as C19's select_t1; repeated here so that the loop below is self-contained) *)
 Definition sel_t1 (t0 tMax h:T) : T * bool :=
